@@ -12,6 +12,31 @@ open CimbaModel.HashHeap (HTag Item Order HH)
 
 attribute [simp] World.now
 
+/-- what the resource layer shows of resource `r`: its holder and its guard (`none`: no such resource) -/
+def World.rv (w : World) (r : Nat) : Option (Option Pid × Nat) := w.res[r]?.map fun x => (x.holder, x.guard)
+
+/-- how many times process `q` lists resource `r` among what it holds -/
+def World.hcount (w : World) (q : Pid) (r : Nat) : Nat := (w.proc q).held.count (.res r)
+
+@[simp] theorem hcount_mk (w : World) (ev : EvQ) (evW : List (Nat × List Pid)) (guards : Array Guard)
+    (res : Array Res) (pools : Array Pool) (bufs : Array Buf) (oqs : Array OQ) (pqs : Array PQ) (conds : Array Nat)
+    (flags : Array Int) (gvars : Array Nat) (log : Array String) (fault : Option String) (d : Nat) (q : Pid) (r : Nat) :
+    World.hcount ⟨ev, evW, w.procs, guards, res, pools, bufs, oqs, pqs, conds, flags, gvars, log, fault, d⟩ q r
+      = w.hcount q r := rfl
+
+@[simp] theorem rv_mk (w : World) (ev : EvQ) (evW : List (Nat × List Pid)) (procs : Array Proc) (guards : Array Guard)
+    (pools : Array Pool) (bufs : Array Buf) (oqs : Array OQ) (pqs : Array PQ) (conds : Array Nat)
+    (flags : Array Int) (gvars : Array Nat) (log : Array String) (fault : Option String) (d : Nat) (r : Nat) :
+    World.rv ⟨ev, evW, procs, guards, w.res, pools, bufs, oqs, pqs, conds, flags, gvars, log, fault, d⟩ r
+      = w.rv r := rfl
+
+theorem rv_congr {w w' : World} (h : w'.res = w.res) (r : Nat) : w'.rv r = w.rv r := by
+  unfold World.rv; rw [h]
+
+theorem hcount_congr {w w' : World} (h : ∀ q, (w'.proc q).held = (w.proc q).held) (q : Pid) (r : Nat) :
+    w'.hcount q r = w.hcount q r := by
+  unfold World.hcount; rw [h]
+
 @[simp] theorem proc_mk (ev : EvQ) (evW : List (Nat × List Pid)) (procs : Array Proc) (guards : Array Guard)
     (res : Array Res) (pools : Array Pool) (bufs : Array Buf) (oqs : Array OQ) (pqs : Array PQ) (conds : Array Nat)
     (flags : Array Int) (gvars : Array Nat) (log : Array String) (fault : Option String) (d : Nat) (q : Pid) :
@@ -120,9 +145,16 @@ macro "world_frame " pre:ident " : " e:term " ~ " w0:term " keeps " fs:ident* " 
     if f.getId == `procs then
       let namep := mkIdent (Name.mkSimple (pre.getId.toString ++ "_proc"))
       let namen := mkIdent (Name.mkSimple (pre.getId.toString ++ "_np"))
+      let nameh := mkIdent (Name.mkSimple (pre.getId.toString ++ "_hcount"))
       `(@[simp] theorem $name : $proj $e = $proj $w0 := by $t
         @[simp] theorem $namep (q : Pid) : World.proc $e q = World.proc $w0 q := proc_congr (by $t) q
-        @[simp] theorem $namen : (World.procs $e).size = (World.procs $w0).size := np_congr (by $t))
+        @[simp] theorem $namen : (World.procs $e).size = (World.procs $w0).size := np_congr (by $t)
+        @[simp] theorem $nameh (q : Pid) (r : Nat) : World.hcount $e q r = World.hcount $w0 q r :=
+          hcount_congr (fun q => congrArg Proc.held (proc_congr (by $t) q)) q r)
+    else if f.getId == `res then
+      let namer := mkIdent (Name.mkSimple (pre.getId.toString ++ "_rv"))
+      `(@[simp] theorem $name : $proj $e = $proj $w0 := by $t
+        @[simp] theorem $namer (r : Nat) : World.rv $e r = World.rv $w0 r := rv_congr (by $t) r)
     else if f.getId == `np then
       `(@[simp] theorem $name : (World.procs $e).size = (World.procs $w0).size := by $t)
     else if f.getId == `now then
@@ -138,7 +170,14 @@ macro "proc_frame " pre:ident " : " e:term " ~ " w0:term " keeps " fs:ident* " b
   let cmds ← fs.mapM fun f => do
     let name := mkIdent (Name.mkSimple (pre.getId.toString ++ "_" ++ f.getId.toString))
     let proj := mkIdent (`CimbaModel.Sim.Proc ++ f.getId)
-    `(@[simp] theorem $name (q : Pid) : $proj (World.proc $e q) = $proj (World.proc $w0 q) := by $t)
+    let q := mkIdent `q
+    if f.getId == `held then
+      let nameh := mkIdent (Name.mkSimple (pre.getId.toString ++ "_hcount"))
+      `(@[simp] theorem $name ($q : Pid) : $proj (World.proc $e $q) = $proj (World.proc $w0 $q) := by $t
+        @[simp] theorem $nameh ($q : Pid) (r : Nat) : World.hcount $e $q r = World.hcount $w0 $q r :=
+          hcount_congr (fun $q => by $t) $q r)
+    else
+      `(@[simp] theorem $name ($q : Pid) : $proj (World.proc $e $q) = $proj (World.proc $w0 $q) := by $t)
   return ⟨mkNullNode cmds⟩
 
 theorem modProc_field {β : Type _} (k : Proc → β) (w : World) (p : Pid) (f : Proc → Proc)
@@ -154,8 +193,12 @@ theorem modProc_field_trans {β : Type _} (k : Proc → β) (w : World) (p : Pid
 /-- unfold `let`/`have` bindings in the goal, if any -/
 macro "zeta" : tactic => `(tactic| try simp only [])
 
-/-- close a frame goal: `rfl`, `simp`, the `modProc` field lemma, splitting as little as needed -/
+/-- close a frame goal: `rfl`, `simp`, the `modProc` field lemma, folds, splitting as little as needed -/
 syntax "frame_close" : tactic
+/-- strip a left fold whose steps keep the World field in the goal (closing the step goal by `frame_close`) -/
+syntax "fold_world" : tactic
+/-- the same for a field of a process record -/
+syntax "fold_proc" : tactic
 macro_rules
   | `(tactic| frame_close) =>
     `(tactic| first
@@ -164,6 +207,9 @@ macro_rules
         | (with_reducible apply modProc_field; intro; with_reducible rfl)
         | (with_reducible apply modProc_field_trans; (case hk => (intro; with_reducible rfl)); frame_close)
         | (unfold World.proc; with_reducible rfl)
+        | (simp; with_reducible apply modProc_field; intro; with_reducible rfl)
+        | (fold_world; frame_close)
+        | (fold_proc; frame_close)
         | (split <;> frame_close))
 
 /-- close a goal by `rfl` after splitting every `match` / `if` in it -/
@@ -173,6 +219,11 @@ macro_rules | `(tactic| splits_rfl) => `(tactic| first | with_reducible rfl | (s
 /-- close a goal by `simp` after splitting as little as needed -/
 syntax "splits_simp" : tactic
 macro_rules | `(tactic| splits_simp) => `(tactic| first | (simp; done) | (split <;> splits_simp))
+
+/-- a field of a process record as a function of the world (for instantiating generic frame lemmas) -/
+def onProc {β : Type _} (k : Proc → β) (q : Pid) (w : World) : β := k (w.proc q)
+
+@[simp] theorem onProc_def {β : Type _} (k : Proc → β) (q : Pid) (w : World) : onProc k q w = k (w.proc q) := rfl
 
 theorem foldl_keeps_proc {α β : Type _} (k : Proc → β) (q : Pid) (f : World → α → World)
     (h : ∀ w a, k ((f w a).proc q) = k (w.proc q)) (l : List α) (w : World) :
@@ -188,16 +239,18 @@ theorem foldl_keeps_proc_trans {α β : Type _} (k : Proc → β) (q : Pid) (f :
     k ((l.foldl f w).proc q) = x :=
   (foldl_keeps_proc k q f h l w).trans h2
 
-/-- strip a left fold whose steps keep the World field in the goal (closing the step goal by `frame_close`) -/
-macro "fold_world" : tactic => `(tactic| (
-  (with_reducible first
-    | apply foldl_keeps_trans
-    | apply foldl_keeps_trans (fun w => w.ev.now)
-    | apply foldl_keeps_trans (fun w => w.procs.size))
-  case h => (intro w a; frame_close)))
-/-- the same for a field of a process record -/
-macro "fold_proc" : tactic => `(tactic| (
-  (with_reducible apply foldl_keeps_proc_trans)
-  case h => (intro w a; frame_close)))
+macro_rules
+  | `(tactic| fold_world) => `(tactic| (
+      (try dsimp only)
+      (with_reducible first
+        | apply foldl_keeps_trans
+        | apply foldl_keeps_trans (fun w => w.ev.now)
+        | apply foldl_keeps_trans (fun w => w.procs.size))
+      case h => (intro w a; frame_close)))
+macro_rules
+  | `(tactic| fold_proc) => `(tactic| (
+      (try dsimp only)
+      (with_reducible apply foldl_keeps_proc_trans)
+      case h => (intro w a; frame_close)))
 
 end CimbaModel.Sim
